@@ -143,16 +143,23 @@ func genDesc(r *core.Rand) *elfref.Desc {
 	type region struct{ off, addr, size uint64 }
 	var code []region
 	nCode := r.Weighted([]int{1, 6, 3, 1})
+	atTop := addr > 1<<63
 	for i := 0; i < nCode; i++ {
 		n := r.Range(1, 24)
 		if odd(6) {
 			n = r.Range(25, 200)
 		}
+		if atTop && i == 0 && r.Bool() {
+			// a section ending exactly at the end of the address space
+			n = r.Range(1, 12)
+			addr = -uint64(4 * n)
+		}
 		var bs []byte
 		if odd(6) {
 			bs = r.Bytes(4 * n) // not RISC-V code
 		} else {
-			prog := rvref.RandomProgram(r, addr, n, rvref.ProgOpts{Regs: r.Range(2, 6), JumpPct: r.Intn(15), MemPct: r.Intn(30), CSRPct: r.Intn(4), SysPct: r.Intn(4)})
+			prog := rvref.RandomProgram(r, addr, n, rvref.ProgOpts{Regs: r.Range(2, 6), JumpPct: r.Intn(15), MemPct: r.Intn(30), CSRPct: r.Intn(4), SysPct: r.Intn(4),
+				BadJumpPct: r.Intn(3) / 2 * r.Range(5, 60)})
 			for _, pi := range prog {
 				bs = append(bs, byte(pi.Word), byte(pi.Word>>8), byte(pi.Word>>16), byte(pi.Word>>24))
 			}
@@ -246,13 +253,40 @@ func genDesc(r *core.Rand) *elfref.Desc {
 			seg.Memsz = seg.Filesz
 			d.Progs = append(d.Progs, seg)
 		case 7: // absurd file size AND memory size (consistent with each other)
-			seg.Filesz = uint64(1) << uint(r.Range(27, 62))
+			// (above the loader's 1 GiB bound: sizes below it are really
+			// allocated, which takes the real binary minutes and is no
+			// subject of any property)
+			seg.Filesz = uint64(1) << uint(r.Range(31, 62))
 			seg.Memsz = seg.Filesz + uint64(r.Intn(4096))
 			d.Progs = append(d.Progs, seg)
 		default:
 			seg.Filesz += dataSize
 			seg.Memsz = seg.Filesz + bss
 			d.Progs = append(d.Progs, seg)
+		}
+		// oddities compose: empty, bss-only and non-LOAD headers may come on
+		// top of whatever the layout above is, at addresses before, inside,
+		// between and behind the other segments
+		span := seg.Memsz + 64
+		if span > 1<<20 {
+			span = 1 << 20
+		}
+		where := func() uint64 { return seg.Vaddr + uint64(r.Intn(int(span))) - uint64(r.Intn(32)) }
+		if odd(5) { // empty loadable segment
+			d.Progs = append(d.Progs, elfref.Prog{Type: elfref.PTLoad, Flags: 4, Off: first.off, Vaddr: where(), Filesz: 0, Memsz: 0})
+		}
+		if odd(6) { // bss-only loadable segment (no file bytes, only zeros)
+			d.Progs = append(d.Progs, elfref.Prog{Type: elfref.PTLoad, Flags: 6, Off: end, Vaddr: seg.Vaddr + 0x20000 + uint64(r.Intn(64)), Filesz: 0, Memsz: uint64(r.Range(1, 64))})
+		}
+		if odd(12) { // bss-only segment overlapping the others (must be rejected)
+			d.Progs = append(d.Progs, elfref.Prog{Type: elfref.PTLoad, Flags: 6, Off: end, Vaddr: where(), Filesz: 0, Memsz: uint64(r.Range(1, 32))})
+		}
+		if odd(8) {
+			d.Progs = append(d.Progs, elfref.Prog{Type: uint32(r.Range(2, 7)), Off: first.off, Vaddr: where(), Filesz: 8, Memsz: 8})
+		}
+		if len(d.Progs) > 1 && odd(3) { // header order is not address order
+			i, j := r.Intn(len(d.Progs)), r.Intn(len(d.Progs))
+			d.Progs[i], d.Progs[j] = d.Progs[j], d.Progs[i]
 		}
 	}
 	if r.Bool() {
